@@ -1,5 +1,5 @@
 /-
-C07 — the file-system protocol of one IsoQuant run (one sample), as an executable model.  Core Lean only.
+C07 — the file-system protocol of one IsoQuant run (one sample), as an executable model. Core Lean only.
 
 What is modelled (src/dataset_processor.py, src/file_utils.py, src/assignment_io.py, src/read_groups.py, isoquant.py):
 
@@ -12,6 +12,12 @@ What is modelled (src/dataset_processor.py, src/file_utils.py, src/assignment_io
   missing or truncated pickle / terminated binary stream, `rm p` = os.remove of a missing file);
 * crash = truncation of the event list of the first run at any index; resume = a second run (`resume = true`) from
   the resulting file system.
+
+Run configurations (`Cfg`): chromosome orders, annotation, read-group mode, `--keep_tmp`, unaligned reads,
+`--read_assignments`, `--sqanti_output`, `carried`, and — docs/C07.md "More run configurations" — `--count_exons` (streams
+`exon`/`intron`/`exonG`/`intronG`, `dumpProfile`, `MStep.profile`), `--no_model_construction` (`gffStreams`, `modelUngrouped`,
+`modelGrouped`, `trStatPaths` empty), gzipped final outputs (`gzFinals`, `finalOf`, path class `finalGz`), `--high_memory`
+(`collectPost` does not read the save files back) and the options of the resume command line (`resumeCfg`).
 
 `Variant` switches between the pinned behaviour and the repaired one (see docs/C07.md):
   flushBeforeLock  the `_collected` / `_processed` lock is written after the data it guards is on disk
@@ -33,6 +39,8 @@ inductive Stream where
   | sq                                       -- `--sqanti_output`: the SQANTI-like table (a printer, opened twice per task)
   | gene | tr | model                        -- ungrouped counters (+ `.stats` side file)
   | geneG | trG | modelG                     -- grouped counters (matrix + linear file)
+  | exon | intron | exonG | intronG          -- `--count_exons`: exon / intron inclusion counts and their grouped variants
+                                             -- (ProfileFeatureCounter: one file, rewritten by `dump`, no side file, no TPM)
   deriving DecidableEq, Repr
 
 inductive Path where
@@ -43,6 +51,7 @@ inductive Path where
   | part (s : Stream) (c : Chr) | partLin (s : Stream) (c : Chr) | partStats (s : Stream) (c : Chr)
   | readStat (c : Chr) | trStat (c : Chr) | processed (c : Chr)
   | final (s : Stream) | finalLin (s : Stream) | tpm (s : Stream)
+  | finalGz (s : Stream)   -- the final file of a stream written through `gzip.open` (`<name>.gz`; default, off with `--no_gzip`)
   deriving DecidableEq, Repr
 
 inductive Tok where
@@ -164,31 +173,59 @@ structure Cfg where
   sqanti : Bool := false   -- `--sqanti_output`
   carried : Bool := false  -- this is a second or later experiment of the invocation and an earlier one has unaligned
                            -- reads: the process-wide alignment counter is not zero when this experiment starts
+  countExons : Bool := false  -- `--count_exons` (no effect without an annotation)
+  noModel : Bool := false     -- `--no_model_construction`: no transcript models, no model counts, no `_transcript_stat`
+  gzip : Bool := false        -- large final outputs go through `gzip.open` (the default; false = `--no_gzip`)
+  highMemory : Bool := false  -- `--high_memory`: collect_reads keeps the assignments of every chromosome in memory and
+                              -- does not read the save files back (no prepare_multimapper_dict)
   deriving Repr
 
 def aggPrinters (cfg : Cfg) : List Stream := .bed :: (if cfg.genedb then [.assign] else [])
 def ungroupedGlobal (cfg : Cfg) : List Stream := if cfg.genedb then [.gene, .tr] else []
 def groupedGlobal (cfg : Cfg) : List Stream := if cfg.genedb && cfg.rg != .none then [.geneG, .trG] else []
-def modelGrouped (cfg : Cfg) : List Stream := if cfg.rg != .none then [.modelG] else []
-def gffStreams (cfg : Cfg) : List Stream := .gtf :: .r2t :: (if cfg.genedb then [.ext] else [])
-def sqStreams (cfg : Cfg) : List Stream := if cfg.sqanti then [.sq] else []
+/-- the transcript-model counter exists unless `--no_model_construction` -/
+def modelUngrouped (cfg : Cfg) : List Stream := if cfg.noModel then [] else [.model]
+def modelGrouped (cfg : Cfg) : List Stream := if cfg.rg != .none && !cfg.noModel then [.modelG] else []
+/-- the GFF printers are `VoidTranscriptPrinter`s under `--no_model_construction` -/
+def gffStreams (cfg : Cfg) : List Stream :=
+  if cfg.noModel then [] else .gtf :: .r2t :: (if cfg.genedb then [.ext] else [])
+/-- isoquant.py check_input_params switches `--sqanti_output` off without an annotation or without model construction -/
+def sqOn (cfg : Cfg) : Bool := cfg.sqanti && cfg.genedb && !cfg.noModel
+def sqStreams (cfg : Cfg) : List Stream := if sqOn cfg then [.sq] else []
+/-- `--count_exons` (with an annotation): the exon and intron counters of the global counter … -/
+def profileGlobal (cfg : Cfg) : List Stream := if cfg.genedb && cfg.countExons then [.exon, .intron] else []
+/-- … and their grouped variants (with `--read_group`) -/
+def profileGrouped (cfg : Cfg) : List Stream :=
+  if cfg.genedb && cfg.rg != .none && cfg.countExons then [.exonG, .intronG] else []
 /-- streams whose per-chromosome file stays open until the printer dies (in the order in which they are flushed) -/
 def printerStreams (cfg : Cfg) : List Stream := aggPrinters cfg ++ sqStreams cfg ++ gffStreams cfg
-def ungrouped (cfg : Cfg) : List Stream := ungroupedGlobal cfg ++ [.model]
+def ungrouped (cfg : Cfg) : List Stream := ungroupedGlobal cfg ++ modelUngrouped cfg
 def grouped (cfg : Cfg) : List Stream := groupedGlobal cfg ++ modelGrouped cfg
+def profile (cfg : Cfg) : List Stream := profileGlobal cfg ++ profileGrouped cfg
+/-- `_transcript_stat` is written (and read back by a resumed run) only when models are constructed -/
+def trStatPaths (cfg : Cfg) (c : Chr) : List Path := if cfg.noModel then [] else [.trStat c]
+
+/-- the final outputs that are gzip streams (`gzipped=self.args.gzipped`: BEDPrinter, BasicTSVAssignmentPrinter, the
+    read-to-model table of the GFFPrinter of the final files; the per-chromosome files are never gzipped) -/
+def gzFinals (cfg : Cfg) : List Stream :=
+  if cfg.gzip then (aggPrinters cfg ++ gffStreams cfg).filter (fun s => s == .bed || s == .assign || s == .r2t) else []
+/-- the final file of a printer stream: `<name>.gz` for a gzip stream -/
+def finalOf (cfg : Cfg) (s : Stream) : Path := if s ∈ gzFinals cfg then .finalGz s else .final s
 
 /-- every per-chromosome file of chromosome `c` that the `_processed` lock of `c` stands for -/
 def chrOutputs (cfg : Cfg) (c : Chr) : List Path :=
   (printerStreams cfg).map (fun s => Path.part s c)
   ++ (ungrouped cfg).flatMap (fun s => [Path.part s c, Path.partStats s c])
   ++ (grouped cfg).flatMap (fun s => [Path.part s c, Path.partLin s c])
-  ++ [Path.readStat c, Path.trStat c]
+  ++ (profile cfg).map (fun s => Path.part s c)
+  ++ Path.readStat c :: trStatPaths cfg c
 
 /-- the final files under `<out>/<prefix>/` -/
 def finalPaths (cfg : Cfg) : List Path :=
-  (printerStreams cfg).map Path.final
+  (printerStreams cfg).map (finalOf cfg)
   ++ (ungrouped cfg).flatMap (fun s => [Path.final s, Path.tpm s])
   ++ (grouped cfg).flatMap (fun s => [Path.final s, Path.finalLin s, Path.tpm s])
+  ++ (profile cfg).map Path.final
 
 /-- the content token of a file that has been written completely: correct iff everything it was computed from was
     (a complete file with wrong content is `stale`, never `bad`: its readers do not raise) -/
@@ -258,33 +295,41 @@ def collectPost (cfg : Cfg) (sk : Bool) : Stage := fun fs =>
   if sk then []
   else
     let m := tokOf (cfg.chrs.all (fun c => fs.good (.groups c) && fs.good (.save c)))
-    cfg.chrs.map (fun c => Act.load (.save c))
+    -- prepare_multimapper_dict reads every save file back; `--high_memory` keeps the assignments in memory instead
+    (if cfg.highMemory then [] else cfg.chrs.map (fun c => Act.load (.save c)))
     ++ evs (cfg.chrs.map (fun c => Ev.create (.multimap c)) ++ cfg.chrs.map (fun c => Ev.commit (.multimap c) m)
             ++ [.create .info, .commit .info m, .create .lock])
 
-/-- ReadAssignmentAggregator.__init__ + the two GFFPrinters, for the final files (`main = final`) or for the
+/-- ReadAssignmentAggregator.__init__ + the two GFFPrinters, for the final files (`main = finalOf cfg`) or for the
     per-chromosome files (`main = part · c`) -/
 def aggInit (cfg : Cfg) (main lin : Stream → Path) : List Ev :=
   (aggPrinters cfg).map (fun s => Ev.create (main s))
   ++ (sqStreams cfg).map (fun s => Ev.create (main s))
   ++ (ungroupedGlobal cfg).map (fun s => Ev.create (main s))
-  ++ [Ev.create (main .model)]
-  ++ (grouped cfg).flatMap (fun s => [Ev.create (main s), Ev.create (lin s)])
+  ++ (modelUngrouped cfg).map (fun s => Ev.create (main s))
+  ++ (profileGlobal cfg).map (fun s => Ev.create (main s))
+  ++ (groupedGlobal cfg).flatMap (fun s => [Ev.create (main s), Ev.create (lin s)])
+  ++ (profileGrouped cfg).map (fun s => Ev.create (main s))
+  ++ (modelGrouped cfg).flatMap (fun s => [Ev.create (main s), Ev.create (lin s)])
   ++ (gffStreams cfg).map (fun s => Ev.create (main s))
 
 /-- process_sample → load_read_info, then process_assigned_reads up to the per-chromosome work -/
 def constructPre (cfg : Cfg) : Stage := fun _ =>
-  Act.exist .info :: evs (aggInit cfg Path.final Path.finalLin)
+  Act.exist .info :: evs (aggInit cfg (finalOf cfg) Path.finalLin)
 
 def dumpUngrouped (c : Chr) (t : Tok) (s : Stream) : List Ev :=
   [.append (.part s c), .create (.partStats s c), .commit (.partStats s c) t, .commit (.part s c) t]
 def dumpGrouped (c : Chr) (t : Tok) (s : Stream) : List Ev :=
   [.append (.part s c), .append (.partLin s c), .commit (.part s c) t, .commit (.partLin s c) t]
+/-- ProfileFeatureCounter.dump: the file is opened with "w" again and closed -/
+def dumpProfile (c : Chr) (t : Tok) (s : Stream) : List Ev :=
+  [.create (.part s c), .commit (.part s c) t]
 
 /-- construct_models_in_parallel for chromosome `c` -/
 def constructChr (v : Variant) (cfg : Cfg) (resume : Bool) (c : Chr) : Stage := fun fs =>
   if resume && fs.has (.processed c) then
-    [Act.load (.multimap c), Act.load (.readStat c), Act.load (.trStat c)]
+    -- `transcript_stat = EnumStats(transcript_stat_file) if construct_models else EnumStats()`
+    [Act.load (.multimap c), Act.load (.readStat c)] ++ (trStatPaths cfg c).map Act.load
   else
     -- the info file (binary, no terminator) is read silently when truncated: everything computed here depends on it
     let t := tokOf (fs.good .info)
@@ -297,10 +342,12 @@ def constructChr (v : Variant) (cfg : Cfg) (resume : Bool) (c : Chr) : Stage := 
             -- the task opens the SQANTI-like table a second time (its own SqantiTSVPrinter on the aggregator's file)
             ++ (sqStreams cfg).map (fun s => Ev.create (.part s c)))
     ++ [Act.load (.save c)]
-    ++ evs ((ungroupedGlobal cfg).flatMap (dumpUngrouped c t) ++ (groupedGlobal cfg).flatMap (dumpGrouped c t)
+    -- global_counter.dump() in the order of its counters: gene, transcript, [exon, intron], [grouped …, [exon, intron grouped]]
+    ++ evs ((ungroupedGlobal cfg).flatMap (dumpUngrouped c t) ++ (profileGlobal cfg).flatMap (dumpProfile c t)
+            ++ (groupedGlobal cfg).flatMap (dumpGrouped c t) ++ (profileGrouped cfg).flatMap (dumpProfile c t)
             ++ [.create (.readStat c), .commit (.readStat c) t]
-            ++ dumpUngrouped c t .model ++ (modelGrouped cfg).flatMap (dumpGrouped c t)
-            ++ [.create (.trStat c), .commit (.trStat c) t]
+            ++ (modelUngrouped cfg).flatMap (dumpUngrouped c t) ++ (modelGrouped cfg).flatMap (dumpGrouped c t)
+            ++ (trStatPaths cfg c).flatMap (fun p => [Ev.create p, Ev.commit p t])
             ++ commits true
             ++ [.create (.processed c)]
             ++ commits false)
@@ -329,24 +376,35 @@ def mergeGrouped (cfg : Cfg) (fs : FS) (s : Stream) : List Act :=
   ++ Act.ev (.append (.finalLin s)) :: rmParts cfg (Path.partLin s)
   ++ evs [.commit (.final s) t, .commit (.finalLin s) tl, .create (.tpm s), .commit (.tpm s) t]
 
+/-- merge_counts of an exon / intron counter: no linear handler, `output_stats_file_name` is None (no side files, the
+    `__not_aligned` tail is not written), convert_counts_to_tpm returns at once; the handler is closed when merge_counts returns -/
+def mergeProfile (cfg : Cfg) (fs : FS) (s : Stream) : List Act :=
+  Act.ev (.append (.final s)) :: rmParts cfg (Path.part s)
+  ++ evs [.commit (.final s) (tokOf (allGood fs (cfg.mchrs.map (Path.part s))))]
+
 /-- one merge step of process_assigned_reads -/
 inductive MStep where
   | parts (s : Stream)       -- merge_files of a printer stream
   | ungrouped (s : Stream)   -- merge_counts + convert_counts_to_tpm of an ungrouped counter
   | grouped (s : Stream)     -- the same for a grouped counter (matrix + linear file)
+  | profile (s : Stream)     -- merge_counts of an exon / intron counter
   deriving DecidableEq, Repr
 
-/-- merge_transcript_models, the extended annotation, merge_assignments -/
+/-- merge_transcript_models and the extended annotation (both only when models are constructed), merge_assignments -/
 def mergeSteps (cfg : Cfg) : List MStep :=
-  [.parts .gtf, .parts .r2t, .ungrouped .model] ++ (modelGrouped cfg).map MStep.grouped
-  ++ (if cfg.genedb then [.parts .ext, .parts .assign] else [])
-  ++ [.parts .bed] ++ (ungroupedGlobal cfg).map MStep.ungrouped ++ (groupedGlobal cfg).map MStep.grouped
+  (if cfg.noModel then []
+   else [.parts .gtf, .parts .r2t, .ungrouped .model] ++ (modelGrouped cfg).map MStep.grouped
+        ++ (if cfg.genedb then [.parts .ext] else []))
+  ++ (if cfg.genedb then [.parts .assign] else [])
+  ++ [.parts .bed] ++ (ungroupedGlobal cfg).map MStep.ungrouped ++ (profileGlobal cfg).map MStep.profile
+  ++ (groupedGlobal cfg).map MStep.grouped ++ (profileGrouped cfg).map MStep.profile
 
 /-- `fs` = the file system when merging starts (every part is read before it is removed) -/
 def stepActs (cfg : Cfg) (unal : Bool) (fs : FS) : MStep → List Act
   | .parts s => rmParts cfg (Path.part s)
   | .ungrouped s => mergeUngrouped cfg unal fs s
   | .grouped s => mergeGrouped cfg fs s
+  | .profile s => mergeProfile cfg fs s
 
 /-- `--sqanti_output`: `merge_files(out_t2t_tsv, …, open(out_t2t_tsv, "w"))` after merge_assignments — the final table is
     opened once more, then the per-chromosome tables are copied and removed -/
@@ -357,7 +415,7 @@ def sqMerge (cfg : Cfg) : List Act :=
 def mergeStage (cfg : Cfg) (unal : Bool) : Stage := fun fs =>
   (mergeSteps cfg).flatMap (stepActs cfg unal fs)
   ++ sqMerge cfg
-  ++ evs ((printerStreams cfg).map (fun s => Ev.commit (.final s) (tokOf (allGood fs (cfg.mchrs.map (Path.part s))))))
+  ++ evs ((printerStreams cfg).map (fun s => Ev.commit (finalOf cfg s) (tokOf (allGood fs (cfg.mchrs.map (Path.part s))))))
 
 def isSaveAux : Path → Bool
   | .save _ | .groups _ | .bamstat _ | .collected _ | .multimap _ | .info | .lock
@@ -427,6 +485,20 @@ def verdictFrom (v : Variant) (cfg : Cfg) (ord ord' : List Path) (fs0 : FS) (k :
 def cleanEvents (v : Variant) (cfg : Cfg) (ord : List Path) : List Ev := cleanEventsFrom v cfg ord FS.empty
 def crashFS (v : Variant) (cfg : Cfg) (ord : List Path) (k : Nat) : FS := crashFSFrom v cfg ord FS.empty k
 def verdict (v : Variant) (cfg : Cfg) (ord ord' : List Path) (k : Nat) : Verdict := verdictFrom v cfg ord ord' FS.empty k
+
+/-- what `--resume` may change: `.params` gives back every option of the killed run, then the options found on the resume
+    command line override them (isoquant.py load_previous_run).  `--high_memory` is *always* overridden (its default in
+    the resume parser is False, not SUPPRESS: a resumed run is a `--high_memory` run iff the flag is repeated), `--keep_tmp`
+    only when given (it can be switched on, not off); `--threads` is the subject of Model/ResumePool.lean -/
+def resumeCfg (cfg : Cfg) (hm kt : Bool) : Cfg := { cfg with highMemory := hm, keepTmp := cfg.keepTmp || kt }
+
+/-- `verdictFrom` with the resumed run under the options of its own command line (`hm` = `--resume --high_memory`,
+    `kt` = `--resume --keep_tmp`); the reference is still the uninterrupted run with the options of the killed run -/
+def verdictFromOpts (v : Variant) (cfg : Cfg) (ord ord' : List Path) (hm kt : Bool) (fs0 : FS) (k : Nat) : Verdict :=
+  let r := run v (resumeCfg cfg hm kt) ord' true (crashFSFrom v cfg ord fs0 k)
+  if !r.ok then .fail
+  else if sameFinals cfg r.fs (run v cfg ord false fs0).fs then .equal
+  else .diff
 
 /-- the paths a run of configuration `cfg` can touch (used to print file systems) -/
 def allPaths (cfg : Cfg) : List Path :=
